@@ -68,6 +68,8 @@ def verifier_for(spec):
         return RsaChecker.from_key('/k/rsa/KEY/1', pub_der('rsa2048_0'))
     if spec == 'ecdsa':
         return EccChecker.from_key('/k/ec/KEY/1', pub_der('ec256_0'))
+    if spec.startswith('ecdsa:'):
+        return EccChecker.from_key('/k/ec/KEY/1', pub_der({'224': 'ec224_0', '384': 'ec384_0', '521': 'ec521_0'}[spec[6:]]))
     if spec == 'ed':
         return Ed25519Checker.from_key('/k/ed/KEY/1', pub_der('ed25519_0'))
     raise ValueError(spec)
@@ -91,23 +93,64 @@ def base_cases(tier):
     for kind in ('I', 'D'):
         for klen in (1, 63, 64, 65, 200):
             yield {'k': kind, 'name': ['a'], 'plen': 5, 'signer': f'hmac:{klen}', 'it': 0}
+    # optional fields around the signed portion: HopLimit / ForwardingHint / flags are outside it, MetaInfo inside it
+    for kind in ('I', 'D'):
+        for pv in (1, 2, 3):
+            for signer in ('digest', 'hmac', 'ecdsa', 'ed'):
+                for toks in (['a'], ['a', 'P', 'K']) if kind == 'I' else (['a'],):
+                    yield {'k': kind, 'name': toks, 'plen': 5, 'signer': signer, 'it': 0, 'pv': pv}
+    # the other curves of the ECDSA signer
+    for kind in ('I', 'D'):
+        for curve in ('224', '384', '521'):
+            for it in range(2 if tier == 'quick' else 8):
+                yield {'k': kind, 'name': ['a'], 'plen': 5, 'signer': 'ecdsa:' + curve, 'it': it}
     # unsigned Interests with parameters: digest only
     for toks in (['a'], ['a', 'P', 'K']):
         for plen in (0, 5, 300):
             yield {'k': 'I', 'name': toks, 'plen': plen, 'signer': 'none', 'it': 0}
 
 
+def cert_cases(tier):
+    """certificates are Data packets produced by their own encoder path (security_v2.new_cert): a padded name moves the
+    packet across the 253-byte boundary while the ECDSA signature shrinks by 0..3 bytes"""
+    for iss in ('ecdsa', 'ecdsa:384', 'rsa', 'ed'):
+        for pad in (range(0, 130) if iss.startswith('ecdsa') else range(0, 130, 9)):
+            for it in range((3 if tier == 'quick' else 10) if iss.startswith('ecdsa') else 1):
+                yield {'k': 'C', 'name': ['pad'], 'plen': pad, 'signer': iss, 'it': it}
+
+
+def build_cert(case):
+    import datetime
+    from ndn.app_support import security_v2 as sv2
+    inner = c01.make_signer(case['signer'], False)
+    rec = Recorder(inner)
+    with owned_random(('c02cert', case['it'], case['plen'], case['signer'])):
+        key_name = [ts.tlv(8, b'p' * case['plen']), ts.tlv(8, b'KEY'), ts.tlv(8, b'\x01')]
+        _, wire = sv2.derive_cert(key_name, 'iss', pub_der('ed25519_1'), rec, datetime.datetime(2024, 2, 29, 12, 0, 0), 3600)
+    return bytes(wire), rec
+
+
 def build(case):
+    if case['k'] == 'C':
+        return build_cert(case)
     kind, toks, plen = case['k'], case['name'], case['plen']
     payload = None if plen is None else bytes((i * 5 + 3) & 0xFF for i in range(plen))
     inner = c01.make_signer(case['signer'], kind == 'I') if case['signer'] != 'none' else None
     rec = Recorder(inner) if inner is not None else None
     with owned_random(('c02', case['it'], plen, kind)):
         name_in = c01.name_repr(toks, 'list')
+        pv = case.get('pv', 0)
         if kind == 'I':
-            wire = enc.make_interest(name_in, enc.InterestParam(nonce=0x01020304, lifetime=4000, can_be_prefix=True), payload, rec)
+            ip = [enc.InterestParam(nonce=0x01020304, lifetime=4000, can_be_prefix=True),
+                  enc.InterestParam(nonce=0x01020304, lifetime=4000, can_be_prefix=True, hop_limit=7),
+                  enc.InterestParam(nonce=0xfffffffe, lifetime=1, must_be_fresh=True, hop_limit=0, forwarding_hint=[['h'], ['g', 'h2']]),
+                  enc.InterestParam(nonce=None, lifetime=None, hop_limit=255)][pv]
+            wire = enc.make_interest(name_in, ip, payload, rec)
         else:
-            wire = enc.make_data(name_in, enc.MetaInfo(freshness_period=1000), payload, rec)
+            mi = [enc.MetaInfo(freshness_period=1000),
+                  enc.MetaInfo(content_type=2, freshness_period=0, final_block_id=enc.Component.from_segment(3)),
+                  enc.MetaInfo(), None][pv]
+            wire = enc.make_data(name_in, mi, payload, rec)
     return bytes(wire), rec
 
 
@@ -294,12 +337,14 @@ def check_tamper(case, tier, acc):
 def plan(tier, seed):
     cases = list(base_cases(tier))
     units = [{'idx': i, 'tier': tier} for i in range(len(cases))]
+    n_cert = len(list(cert_cases(tier)))
+    units += [{'certs': [lo, min(n_cert, lo + 100)], 'tier': tier} for lo in range(0, n_cert, 100)]
     return {
         'units': units,
         'rule': 'base packet = (kind, name shape, payload size, signer, ECDSA nonce index); for each base packet every single-byte '
                 'substitution (pattern set per tier), every truncation, refixed truncations and TLV-level edits. Non-trivial = mutant that '
                 'the reference reader still parses and whose signed portion or signature value differs from the original.',
-        'bounds': {'base_packets': len(cases), 'signers': ['digest', 'hmac', 'ed25519', 'rsa-2048', 'ecdsa-p256 (6/16 nonces)', 'none (digest only)'],
+        'bounds': {'base_packets': len(cases), 'certificates (cover clauses only)': n_cert, 'signers': ['digest', 'hmac', 'ed25519', 'rsa-2048', 'ecdsa-p256 (6/16 nonces)', 'none (digest only)'],
                    'substitution': '^01,^80,^ff,+1' if tier == 'quick' else 'all 255 values for digest/hmac/ed25519, 4 patterns for rsa/ecdsa'},
         'assumptions': ['sha256_digest_checker is documented to pass packets that are not DigestSha256-signed: its tamper claim is restricted '
                         'to mutants whose SignatureType is still 0',
@@ -308,7 +353,26 @@ def plan(tier, seed):
     }
 
 
+def unit_certs(arg):
+    acc = Acc()
+    acc.state_hashes = None
+    for case in list(cert_cases(arg['tier']))[arg['certs'][0]:arg['certs'][1]]:
+        viol, ok = check_cover(case)
+        acc.evaluations += 1
+        acc.transitions += 1
+        acc.nontrivial += 1
+        acc.outcome(f"C|{case['signer']}|cover->{'ok' if not viol else 'viol'}|len={'?' if ok is None else ('<253' if len(ok[0]) < 256 else '>=253')}")
+        acc.observe([case, [v[0] for v in viol]])
+        for sig, what in viol:
+            acc.violation(sig, what, {'cert': case})
+    acc.state_count = acc.evaluations
+    acc.sample({'certificate_cases': arg['certs'], 'last': case})
+    return acc
+
+
 def unit(arg):
+    if 'certs' in arg:
+        return unit_certs(arg)
     acc = Acc()
     acc.state_hashes = None
     case = list(base_cases(arg['tier']))[arg['idx']]
@@ -339,5 +403,8 @@ def unit(arg):
 
 
 def replay(case):
+    if 'cert' in case:
+        viol, _ = check_cover(case['cert'])
+        return [{'sig': s, 'what': w} for s, w in viol]
     acc = unit({'idx': case['idx'], 'tier': case['tier']})
     return [{'sig': s, 'what': v[0]['what']} for s, v in acc.violations.items()]
